@@ -237,6 +237,9 @@ func constToVal(t types.Type, v constant.Value, e *Enc) *Val {
 }
 
 func ghostSort(typ string) (string, Kind) {
+	if strings.HasPrefix(typ, "ptrmap:") {
+		return "(Array Int Int)", KArr
+	}
 	switch typ {
 	case "bool":
 		return "Bool", KBool
@@ -832,6 +835,9 @@ func (env *SpecEnv) evalValueSel(x *SExpr) *Val {
 		if strings.HasSuffix(base.Sort, "Bool)") {
 			return boolVal(sel(base.S[0], idx.term()))
 		}
+		if base.ET != nil {
+			return intVal(base.ET, sel(base.S[0], idx.term()))
+		}
 		return mathInt(sel(base.S[0], idx.term()))
 	}
 	if base.T != nil {
@@ -867,7 +873,15 @@ func (env *SpecEnv) ghostLoad(g *GhostField, addr string) *Val {
 	case KBool:
 		return boolVal(sel(arr, addr))
 	case KArr:
-		return &Val{K: KArr, S: []string{sel(arr, addr)}, Sort: sortS}
+		v := &Val{K: KArr, S: []string{sel(arr, addr)}, Sort: sortS}
+		if strings.HasPrefix(g.Typ, "ptrmap:") {
+			t := env.e.w.resolveType(g.Pkg, strings.TrimPrefix(g.Typ, "ptrmap:"))
+			if t == nil {
+				env.fail("unknown type in %s", g.Typ)
+			}
+			v.ET = types.NewPointer(t)
+		}
+		return v
 	}
 	return mathInt(sel(arr, addr))
 }
@@ -977,7 +991,7 @@ func (env *SpecEnv) evalCall(x *SExpr) *Val {
 			if a.K != KArr {
 				env.fail("store on non-array")
 			}
-			return &Val{K: KArr, S: []string{sto(a.S[0], k.term(), v.term())}, Sort: a.Sort}
+			return &Val{K: KArr, S: []string{sto(a.S[0], k.term(), v.term())}, Sort: a.Sort, ET: a.ET}
 		case "emptyset":
 			return &Val{K: KArr, S: []string{"((as const (Array Int Bool)) false)"}, Sort: "(Array Int Bool)"}
 		case "ptr":
